@@ -6,7 +6,8 @@ CONSTANTS B = 4
   CfgOutput = TRUE
   FixDone = TRUE
   FixDrain = TRUE
+  FixHandover = TRUE
 SPECIFICATION Spec
-INVARIANTS C12_LogUnlessRaced C12_NothingLostUnlessRaced
+INVARIANTS C12_Log C12_NothingLost
 PROPERTY Finishes
 CHECK_DEADLOCK FALSE
